@@ -54,6 +54,8 @@ def set_keepalive(sock, after_idle_sec=1, interval_sec=3, max_fails=5):
         set_keepalive_windows(sock, after_idle_sec, interval_sec, max_fails)
 
 
+_NO_MESSAGE = object()  # returned by __processParseMessage when no complete frame is buffered
+
 class TcpConnection(object):
 
     def __init__(self, poller, onMessageReceived = None, onConnected = None, onDisconnected = None,
@@ -217,7 +219,7 @@ class TcpConnection(object):
 
             while True:
                 message = self.__processParseMessage()
-                if message is None:
+                if message is _NO_MESSAGE:
                     break
                 if self.__onMessageReceived is not None:
                     self.__onMessageReceived(message)
@@ -276,13 +278,13 @@ class TcpConnection(object):
 
     def __processParseMessage(self):
         if len(self.__readBuffer) < 4:
-            return None
+            return _NO_MESSAGE
         l = struct.unpack('i', self.__readBuffer[:4])[0]
         if l < 0:
             self.disconnect()
-            return None
+            return _NO_MESSAGE
         if len(self.__readBuffer) - 4 < l:
-            return None
+            return _NO_MESSAGE
         data = self.__readBuffer[4:4 + l]
         try:
             if self.encryptor:
@@ -298,7 +300,7 @@ class TcpConnection(object):
         except:
             # Why no logging of security errors?
             self.disconnect()
-            return None
+            return _NO_MESSAGE
         self.__readBuffer = self.__readBuffer[4 + l:]
         return message
 
